@@ -68,8 +68,11 @@ impl Val {
 enum LaneClass {
     /// rate lanes `absorb_len..RATE` of the first duplexing of a chain (zero by padding / initial state)
     PaddedRate,
-    /// capacity lanes of the first duplexing of a chain (zero initial state, + length tag)
-    FreshCapacity,
+    /// capacity lanes of the very first duplexing (first row of the permutation table; zero
+    /// initial state + length tag)
+    InitialCapacity,
+    /// capacity lanes of the first duplexing after a `clear` (a fresh chain on a later row)
+    RestartCapacity,
     /// capacity lanes of a later duplexing (inherited from the previous permutation output)
     ChainedCapacity,
     /// rate lanes `absorb_len..RATE` of a later duplexing (zero padding of a partial absorb, or
@@ -81,7 +84,8 @@ impl LaneClass {
     fn name(self) -> &'static str {
         match self {
             LaneClass::PaddedRate => "padded-rate",
-            LaneClass::FreshCapacity => "fresh-capacity",
+            LaneClass::InitialCapacity => "initial-capacity",
+            LaneClass::RestartCapacity => "restart-capacity",
             LaneClass::ChainedCapacity => "chained-capacity",
             LaneClass::CarriedRate => "carried-rate",
         }
@@ -171,7 +175,8 @@ fn base_hook<C: Cfg>(st: Arc<DevState>) -> LimbHook<BOf<C>> {
                 // the honest baseline run; the whole output becomes P(forged input).
                 if let Some(inp) = st.rows.lock().unwrap().get(k).filter(|r| r.len() == x.len()) {
                     let mut f = inp.clone();
-                    for &l in lanes.iter().filter(|l| **l < f.len()) {
+                    let w = f.len();
+                    for &l in lanes.iter().filter(|l| **l < w) {
                         f[l] = match val {
                             Val::Zero => 0,
                             Val::Random(s) => 1 + mix(*s, l as u64) % (order - 1),
@@ -419,7 +424,6 @@ fn exec_plan<C: Cfg>(
 ) -> Outcome {
     st.arm(plan);
     let row_input = matches!(plan, Plan::RowInput { .. });
-    #[allow(unused_mut)]
     let mut traces = match guarded(|| run_built::<C>(built, &built.publics)) {
         Ok(Ok(t)) => t,
         Ok(Err(e)) => return Outcome::RunnerError(err_variant(&e)),
@@ -533,6 +537,7 @@ fn plan_tag(plan: &Plan) -> String {
     match plan {
         Plan::Honest => "honest".into(),
         Plan::Perm { at, val, .. } => format!("{}@perm{}", val.name(), at),
+        Plan::RowInput { at, val, lanes, .. } if lanes.len() == 1 => format!("{}@row{}.lane{}", val.name(), at, lanes[0]),
         Plan::RowInput { at, val, .. } => format!("{}@row{}", val.name(), at),
         Plan::HighCoeff { at, .. } => format!("random@perm{at}"),
         Plan::ExtHint { at, mode } => format!("mode{mode}@hint{at}"),
@@ -594,7 +599,25 @@ fn run_history<C: Cfg>(
         let (class, limb) = classify::<C>(&plan);
         let key = format!("{base_key}|{class}|{limb}|{}", plan_tag(&plan));
         let cname = format!("{limb}/{}", C::NAME);
-        let r = match exec_plan::<C>(&built, &kit, &st, &nat, &plan, Some(&pin)) {
+        let ri = match &plan {
+            Plan::RowInput { class, .. } => Some(format!("row-input/{}/{}", class.name(), C::NAME)),
+            _ => None,
+        };
+        if ri.is_some() && st.rows.lock().unwrap().is_empty() {
+            out.push(CaseResult::inconclusive(key, "row-input: recorded row inputs of the honest run not recoverable / not consistent with the plain permutation"));
+            continue;
+        }
+        let outcome = exec_plan::<C>(&built, &kit, &st, &nat, &plan, Some(&pin));
+        let ri_label = match &outcome {
+            Outcome::Accepted { .. } => "accepted-different-challenge",
+            Outcome::AcceptedSame => "accepted-same-challenge",
+            Outcome::Rejected(_) => "rejected-by-verifier",
+            Outcome::ProverFailed(_) => "rejected-by-prover",
+            Outcome::RunnerError(_) => "rejected-by-run",
+            Outcome::NotApplied | Outcome::NoEffect => "not-realisable",
+            Outcome::HonestOk(_) => "harness-error",
+        };
+        let mut r = match outcome {
             Outcome::Accepted { mismatches } => CaseResult::violated(
                 key,
                 signature::<C>(&plan, recompose),
@@ -605,12 +628,17 @@ fn run_history<C: Cfg>(
             Outcome::Rejected(e) => CaseResult::held(key, true)
                 .count(format!("rejected/{cname}"), 1)
                 .count(format!("rejection-error/{e}"), 1),
-            Outcome::NoEffect => CaseResult::held(key, false).count(format!("trivial/no-sampled-value-changed/{limb}"), 1),
+            Outcome::NoEffect | Outcome::AcceptedSame => {
+                CaseResult::held(key, false).count(format!("trivial/no-sampled-value-changed/{limb}"), 1)
+            }
             Outcome::NotApplied => CaseResult::held(key, false).count(format!("trivial/deviation-not-realisable/{limb}"), 1),
             Outcome::RunnerError(e) => CaseResult::held(key, false).count(format!("trivial/runner-error/{limb}+{mode}/{e}"), 1),
             Outcome::ProverFailed(e) => CaseResult::held(key, false).count(format!("trivial/prover-failed/{limb}/{e}"), 1),
             Outcome::HonestOk(_) => CaseResult::inconclusive(key, "harness: honest outcome for a deviating plan"),
         };
+        if let Some(p) = ri {
+            r = r.count(format!("{p}/attempted"), 1).count(format!("{p}/{ri_label}"), 1);
+        }
         out.push(r);
     }
     out
@@ -751,6 +779,258 @@ fn canonical_plans<C: Cfg>(n_ext: usize, _n_bits: usize) -> Vec<Plan> {
     v
 }
 
+// ------------------------------------------------------------------------------------------
+// Family `row-input`: which lanes of which permutation row carry no absorbed value
+// ------------------------------------------------------------------------------------------
+
+/// One duplexing of a history: first of its chain (after init / clear)? how many inputs absorbed?
+#[derive(Clone, Copy, Debug, PartialEq)]
+struct RowSim {
+    fresh: bool,
+    absorb: usize,
+}
+
+/// Buffer bookkeeping of the duplex sponge over a history (independent of the repository code;
+/// cross-checked against the permutation count of the native challenger by the caller).
+fn sim_rows<C: Cfg>(h: &[HOp]) -> Vec<RowSim> {
+    struct S {
+        r: usize,
+        inl: usize,
+        outl: usize,
+        fresh: bool,
+        rows: Vec<RowSim>,
+    }
+    impl S {
+        fn duplex(&mut self) {
+            self.rows.push(RowSim { fresh: self.fresh, absorb: self.inl });
+            self.fresh = false;
+            self.inl = 0;
+            self.outl = self.r;
+        }
+        fn obs(&mut self, n: usize) {
+            for _ in 0..n {
+                self.outl = 0;
+                self.inl += 1;
+                if self.inl == self.r {
+                    self.duplex();
+                }
+            }
+        }
+        fn smp(&mut self, n: usize) {
+            for _ in 0..n {
+                if self.inl > 0 || self.outl == 0 {
+                    self.duplex();
+                }
+                self.outl -= 1;
+            }
+        }
+    }
+    let d = <C::S as Setup>::D;
+    let mut s = S { r: C::RATE, inl: 0, outl: 0, fresh: true, rows: vec![] };
+    for op in h {
+        match op {
+            HOp::Obs { .. } => s.obs(1),
+            HOp::ObsExt { .. } => s.obs(d),
+            HOp::ObsSlice { vs, .. } => s.obs(vs.len()),
+            HOp::ObsExtSlice { vs, .. } => s.obs(vs.len() * d),
+            HOp::Sample | HOp::SampleBits { .. } => s.smp(1),
+            HOp::SampleExt => s.smp(d),
+            HOp::SampleExtVec { n } => s.smp(n * d),
+            HOp::Pow { bits, .. } => {
+                if *bits > 0 {
+                    s.obs(1);
+                    s.smp(1);
+                }
+            }
+            HOp::Clear => {
+                s.inl = 0;
+                s.outl = 0;
+                s.fresh = true;
+            }
+        }
+    }
+    s.rows
+}
+
+fn class_lanes<C: Cfg>(at: usize, row: &RowSim, class: LaneClass) -> Vec<usize> {
+    match class {
+        LaneClass::PaddedRate if row.fresh => (row.absorb..C::RATE).collect(),
+        LaneClass::InitialCapacity if row.fresh && at == 0 => (C::RATE..C::WIDTH).collect(),
+        LaneClass::RestartCapacity if row.fresh && at > 0 => (C::RATE..C::WIDTH).collect(),
+        LaneClass::ChainedCapacity if !row.fresh => (C::RATE..C::WIDTH).collect(),
+        LaneClass::CarriedRate if !row.fresh => (row.absorb..C::RATE).collect(),
+        _ => vec![],
+    }
+}
+
+const LANE_CLASSES: [LaneClass; 5] = [
+    LaneClass::PaddedRate,
+    LaneClass::InitialCapacity,
+    LaneClass::RestartCapacity,
+    LaneClass::ChainedCapacity,
+    LaneClass::CarriedRate,
+];
+
+/// Every (row, lane class) of the history with every value kind that is not the identity there:
+/// all lanes random ("zero -> junk"), one lane random (`every_lane`: each table limb of the class
+/// on its own, so that a single unbound lane is found), all lanes zero ("reset") where the honest lanes
+/// are not zero, all lanes replayed from an earlier permutation output where there is one.
+fn all_row_plans<C: Cfg>(rows: &[RowSim], seed: u64, every_lane: bool) -> Vec<Plan> {
+    let mut v = vec![];
+    for (at, row) in rows.iter().enumerate() {
+        for class in LANE_CLASSES {
+            let lanes = class_lanes::<C>(at, row, class);
+            if lanes.is_empty() {
+                continue;
+            }
+            let s = mix(seed, (at * 8 + class as usize) as u64);
+            v.push(Plan::RowInput { at, lanes: lanes.clone(), val: Val::Random(s), class });
+            if every_lane && lanes.len() > 1 {
+                // one lane of every limb the permutation table binds as a unit (a base lane for a
+                // base permutation, the PERM_D coefficients of a packed limb otherwise)
+                let d = C::PERM_D.max(1);
+                let mut limbs: Vec<usize> = lanes.iter().map(|l| l / d).collect();
+                limbs.dedup();
+                for limb in limbs {
+                    let cands: Vec<usize> = lanes.iter().copied().filter(|l| l / d == limb).collect();
+                    let l = cands[(mix(s, 32 + limb as u64) % cands.len() as u64) as usize];
+                    v.push(Plan::RowInput { at, lanes: vec![l], val: Val::Random(mix(s, 16 + l as u64)), class });
+                }
+            } else {
+                let one = lanes[(mix(s, 1) % lanes.len() as u64) as usize];
+                v.push(Plan::RowInput { at, lanes: vec![one], val: Val::Random(mix(s, 2)), class });
+            }
+            let honest_nonzero = match class {
+                LaneClass::PaddedRate => false,
+                LaneClass::InitialCapacity | LaneClass::RestartCapacity => row.absorb > 0, // the length tag
+                LaneClass::ChainedCapacity => true,
+                LaneClass::CarriedRate => row.absorb == 0, // previous rate outputs
+            };
+            if honest_nonzero {
+                v.push(Plan::RowInput { at, lanes: lanes.clone(), val: Val::Zero, class });
+            }
+            // an earlier state; for inherited lanes the previous output is the identity
+            let inherited = matches!(class, LaneClass::ChainedCapacity) || (class == LaneClass::CarriedRate && row.absorb == 0);
+            let newest = if inherited { at.saturating_sub(1) } else { at };
+            if newest > 0 {
+                v.push(Plan::RowInput { at, lanes, val: Val::Replay((mix(s, 3) % newest as u64) as usize), class });
+            }
+        }
+    }
+    v
+}
+
+/// `k` random (row, lane class, value kind, all lanes / one lane) plans.
+fn random_row_plans<C: Cfg>(rng: &mut SmallRng, rows: &[RowSim], k: usize) -> Vec<Plan> {
+    let every = chance(rng, 1, 2);
+    let all = all_row_plans::<C>(rows, rng.random(), every);
+    if all.len() <= k {
+        return all;
+    }
+    let mut v: Vec<Plan> = vec![];
+    for _ in 0..8 * k {
+        let p = pick(rng, &all).clone();
+        if v.len() < k && !v.contains(&p) {
+            v.push(p);
+        }
+    }
+    v
+}
+
+/// Minimal histories for the row-input family.
+/// kind 0: partial first absorb (observe 3, sample, observe RATE, sample);
+/// kind 1: pure squeeze first (sample, observe 2, extension sample);
+/// kind 2: full first absorb, squeeze without absorbing (RATE + 1 samples), clear, partial absorb
+///         on the fresh chain in the middle of the table.
+fn row_canonical<C: Cfg>(kind: usize) -> Vec<HOp> {
+    let obs = |n: usize, base: u64| (0..n as u64).map(move |i| HOp::Obs { v: base + i, k: false });
+    let mut h: Vec<HOp> = vec![];
+    match kind {
+        0 => {
+            h.extend(obs(3, 100));
+            h.push(HOp::Sample);
+            h.extend(obs(C::RATE, 200));
+            h.push(HOp::Sample);
+        }
+        1 => {
+            h.push(HOp::Sample);
+            h.extend(obs(2, 100));
+            h.push(HOp::SampleExt);
+        }
+        _ => {
+            h.extend(obs(C::RATE, 100));
+            for _ in 0..C::RATE + 1 {
+                h.push(HOp::Sample);
+            }
+            h.push(HOp::Clear);
+            h.extend(obs(1, 300));
+            h.push(HOp::Sample);
+        }
+    }
+    h
+}
+
+pub const ROW_CANONICAL_ROUNDS: usize = 6;
+
+/// Cases of the row-input family (their own index space, appended after the cases of `case`).
+fn row_case<C: Cfg>(seed: u64, j: usize, _tier: Tier) -> Vec<CaseResult> {
+    let round = j / PROVABLE.len();
+    let mut rng = case_rng(seed, "c06-row", j as u64);
+    // rounds 0..5: the three minimal histories with the recompose table on / off and every
+    // (row, lane class, value kind): first witnesses are minimal reproducers. With the recompose
+    // table on, every table limb is also forged on its own.
+    // (a base permutation reads the state targets directly, whatever the recompose mode: its
+    // recompose-off rounds are random histories instead)
+    let (h, recompose, exhaustive) = if round < ROW_CANONICAL_ROUNDS && (round < 3 || C::PERM_D > 1) {
+        (row_canonical::<C>(round % 3), round < 3, true)
+    } else {
+        let o = GenOpts {
+            max_ops: *pick(&mut rng, &[6usize, 12, 24]),
+            max_perms: 5,
+            pow: false,
+            clear: chance(&mut rng, 1, 2),
+            bits: true,
+            end_sample: true,
+            const_pct: 20,
+        };
+        let mut h = vec![];
+        for _ in 0..30 {
+            h = gen_history::<C>(&mut rng, &o);
+            if native_eval::<C>(&h, None).perms >= 1 {
+                break;
+            }
+        }
+        if native_eval::<C>(&h, None).perms < 1 {
+            h = row_canonical::<C>(rng.random_range(0..3));
+        }
+        (h, rng.random_range(0..2u32) == 0, false)
+    };
+    let rows = sim_rows::<C>(&h);
+    let perms = native_eval::<C>(&h, None).perms;
+    if rows.len() != perms {
+        return vec![CaseResult::inconclusive(
+            format!("{}|row-sim", C::NAME),
+            format!("harness: sponge bookkeeping gives {} duplexings, native challenger {}", rows.len(), perms),
+        )];
+    }
+    let mut prng = case_rng(seed, "c06-row-plans", j as u64);
+    let pseed: u64 = prng.random();
+    let mut rs = run_history::<C>(
+        &h,
+        recompose,
+        &mut |_p, _ne, _nb| if exhaustive { all_row_plans::<C>(&rows, pseed, recompose) } else { random_row_plans::<C>(&mut prng, &rows, 4) },
+        j < 24,
+    );
+    // the honest baseline of these histories is already counted by its own key
+    for r in rs.iter_mut() {
+        if r.key.ends_with("|honest") {
+            r.counters.retain(|(k, _)| k != "honest-baseline-accepted");
+            r.counters.push(("row-input/honest-baseline-accepted".into(), 1));
+        }
+    }
+    rs
+}
+
 pub const PROVABLE: [&str; 8] = [
     "babybear-d4-w16-poseidon2",
     "koalabear-d5q-over-d1-w16-poseidon2",
@@ -833,7 +1113,12 @@ fn main() {
          sample, deviation plan); plans: prover-chosen capacity limbs (all / one; zero / random / replay of an \
          earlier state) or rate limbs of one permutation output, prover-chosen non-constant coefficients of \
          base-permutation outputs under the quintic circuit field, alternative extension-coefficient \
-         decomposition hints, bits-of-x+p hints. The deviating trace is proven with the honest prover data and \
+         decomposition hints, bits-of-x+p hints; family row-input (histories with >= 1 permutation, first \
+         duplexing a partial absorb / pure squeeze / full absorb, with and without clear): prover-chosen INPUT \
+         lanes of one permutation row that carry no absorbed value (padded rate / initial capacity / capacity \
+         after a clear / chained capacity / carried rate; all lanes or one; random / zero / replay of an earlier \
+         output), the row's permutation recomputed from the forged input, outputs propagated, recorded row \
+         inputs of the Poseidon trace edited accordingly. The deviating trace is proven with the honest prover data and \
          verified; verdict = accepted => all sampled targets equal the native challenges. non-trivial = the \
          runner produced a trace in which at least one sampled value differs from the native transcript and \
          the prover produced a proof (verifier then rejected, or accepted = violation); the honest baseline \
@@ -852,23 +1137,36 @@ fn main() {
         rep.finish(0);
     }
     let n: usize = args.extra.get("n").and_then(|s| s.parse().ok()).unwrap_or(args.tier.pick(240, 8_000));
+    // cases of the row-input family: their own index space and random streams (scheduled before
+    // the other cases: the exhaustive minimal-history cases are the longest of the run)
+    let m: usize = args
+        .extra
+        .get("rows")
+        .and_then(|s| s.parse().ok())
+        .unwrap_or(args.tier.pick(PROVABLE.len() * (ROW_CANONICAL_ROUNDS + 4), 1_200));
     let only = args.extra.get("config").cloned();
     let (seed, tier) = (args.seed, args.tier);
     if let Some(i) = args.extra.get("only").and_then(|s| s.parse::<usize>().ok()) {
         // debugging aid: exactly the case with this index of the full run
-        let rs = with_cfg!(PROVABLE[i % PROVABLE.len()], case, seed, i, tier);
+        // `--only i`: case i of the existing families; `--only i --family row`: row-input case i
+        let rs = if args.extra.get("family").map(String::as_str) == Some("row") {
+            with_cfg!(PROVABLE[i % PROVABLE.len()], row_case, seed, i, tier)
+        } else {
+            with_cfg!(PROVABLE[i % PROVABLE.len()], case, seed, i, tier)
+        };
         for r in &rs {
             println!("{} -> {:?}", r.key, r.verdict);
         }
         rep.add_all(rs);
         rep.finish(0);
     }
-    let results = run_cases(n, args.threads, |i| {
+    let results = run_cases(m + n, args.threads, |i| {
+        let j = if i < m { i } else { i - m };
         let name = match &only {
             Some(c) => c.as_str(),
-            None => PROVABLE[i % PROVABLE.len()],
+            None => PROVABLE[j % PROVABLE.len()],
         };
-        with_cfg!(name, case, seed, i, tier)
+        if i < m { with_cfg!(name, row_case, seed, j, tier) } else { with_cfg!(name, case, seed, j, tier) }
     });
     for r in &results {
         let parts: Vec<&str> = r.key.split('|').collect();
